@@ -125,175 +125,184 @@ func init() {
 		NotDecided:  []string{"arithmetic of the delta/varint encoding (see C05)", "NaN/-0 bit patterns", "behaviour of bitmap/simd dependencies", "that findFreeIndex returns a free bit", "equality of values as such"},
 		Assumptions: []string{assumeA1, assumeA3},
 		Run: func(r *Report) {
-			ruleStorageArms(r)
-			ruleUnits(r, "C01.units", "every use of a row position has the unit its sink needs: indexes into per-block value arrays and per-block bitmaps are block-relative; offsets written to buffers, whole-collection bitmaps, lookup tables, the cursor, and passed to the offset-taking API are absolute (a mismatch is wrong for every block but the first)", 60, nil)
-			ruleUnitDefs(r)
-			ruleChunkAlloc(r)
-			ruleWidths(r)
-			ruleGuardedReads(r)
-			ruleGrow(r)
-			ruleCommitUpdates(r)
-			ruleAlias(r)
-			ruleIntern(r)
-			ruleL1(r, backfillExempt)
+			guard(r, func() { ruleStorageArms(r) })
+			guard(r, func() { ruleUnits(r, "C01.units", "every use of a row position has the unit its sink needs: indexes into per-block value arrays and per-block bitmaps are block-relative; offsets written to buffers, whole-collection bitmaps, lookup tables, the cursor, and passed to the offset-taking API are absolute (a mismatch is wrong for every block but the first)", 60, nil) })
+			guard(r, func() { ruleUnitDefs(r) })
+			guard(r, func() { ruleChunkAlloc(r) })
+			guard(r, func() { ruleWidths(r) })
+			guard(r, func() { ruleGuardedReads(r) })
+			guard(r, func() { ruleGrow(r) })
+			guard(r, func() { ruleCommitUpdates(r) })
+			guard(r, func() { ruleAlias(r) })
+			guard(r, func() { ruleIntern(r) })
+			guard(r, func() { ruleL1(r, backfillExempt) })
 			// the enum's shared string table is extended atomically with the lookup that missed
 			ruleL7sel(r, func(f string) bool { return f == "column.columnEnum.data" || f == "column.columnEnum.seek" }, false)
-			ruleSetQueued(r)
-			foundation(r)
-			ruleFootprint(r, "E.footprint", footSel("(column.rw", "(column.rd", "(column.Row)."), 40)
+			guard(r, func() { ruleSetQueued(r) })
+			guard(r, func() { ruleRowDelete(r) }) // "absent if nothing was stored since the row was inserted": deletes sweep every column
+			guard(r, func() { foundation(r) })
+			guard(r, func() { ruleFootprint(r, "E.footprint", footSel("(column.rw", "(column.rd", "(column.Row)."), 40) })
 		}})
 	register(&PropSpec{ID: "C02",
 		Explanation: "Atomicity — structural part. (C02.query) path rules over Collection.Query/rollback/commit/reset: error edge ⇒ rollback only, nil edge ⇒ commit only, transaction released, buffers dropped on every exit; (C02.effects) who-may-call over the context graph of the lockset walk: every Apply body and every logger/recorder append is reachable only below Txn.commit (or index back-fill); (C02.isolation) no bit of the shared fill list is set outside commit; (C02.release) failing inserts free their offset and leave no marker, rollback releases the offsets of successful inserts; (C02.readers) no reading API decodes a transaction buffer." + staticNote,
 		NotDecided:  []string{"that the values applied equal the values buffered (C05)", "visibility at the exact instant of latch release"},
 		Assumptions: []string{assumeA1, assumeA3},
 		Run: func(r *Report) {
-			ruleQueryPaths(r)
-			ruleEffectsBelowCommit(r)
-			ruleShard(r) // "not visible to any other reader until that moment": readers latch the block they read
-			ruleIsolation(r)
-			ruleRelease(r)
-			ruleReadersIgnoreBuffers(r)
-			rulePool(r)
-			ruleUnits(r, "C02.units", unitsText, 5, reserveFns)
-			ruleMarkerArms(r)
-			ruleStorageArms(r)
+			guard(r, func() { ruleQueryPaths(r) })
+			guard(r, func() { ruleEffectsBelowCommit(r) })
+			guard(r, func() { ruleShard(r) }) // "not visible to any other reader until that moment": readers latch the block they read
+			guard(r, func() { ruleIsolation(r) })
+			guard(r, func() { ruleRelease(r) })
+			guard(r, func() { ruleReadersIgnoreBuffers(r) })
+			guard(r, func() { rulePool(r) })
+			guard(r, func() { ruleUnits(r, "C02.units", unitsText, 5, reserveFns) })
+			guard(r, func() { ruleMarkerArms(r) })
+			guard(r, func() { ruleStorageArms(r) })
+			guard(r, func() { ruleFootprint(r, "E.footprint", footSel("(*column.Collection).Query", "(*column.Collection).QueryAt", "(*column.Collection).Insert", "(*column.Collection).DeleteAt", "(*column.Txn).Insert", "(*column.Txn).QueryAt", "(*column.Txn).DeleteAt"), 4) })
 		}})
 	register(&PropSpec{ID: "C03",
 		Explanation: "Bitmap indexes equal their predicate — structural part. (C03.arms) arm effects of columnIndex.Apply (Put: predicate, set on true edge / clear on false edge; Delete: clear); (C03.twopass) computed columns get a fresh pass over the merge-rewritten buffer after the column itself; (C03.rowdelete) row markers reach every registry entry; (C03.register) computed columns are registered under their own name and in the target's list, and dropped from both; (C03.backfill) index creation back-fills from every block; (C07.abs) every Snapshot implementation emits absolute offsets (the back-fill input); (C03.order) no reader method appends to the buffer being replayed; (C11.order) updates are applied before markers so a put+delete of one row leaves no index bit; (C01.arms) every storage Merge arm swaps the delta for the final value." + staticNote,
 		NotDecided:  []string{"that the user predicate is evaluated on the right value bytes (decoding, C05)", "predicate values"},
 		Assumptions: []string{assumeA3},
 		Run: func(r *Report) {
-			ruleIndexArms(r)
-			ruleCommitUpdates(r)
-			ruleRowDelete(r)
-			ruleRegister(r)
-			ruleBackfill(r)
-			ruleRegistryLists(r)
-			ruleUnits(r, "C03.units", unitsText, 2, anyOf(applyUnitFns("index"), fnsel("(*column.Collection).CreateIndex", "(*column.Collection).chunks")))
-			ruleUnits(r, "C07.abs", "every Snapshot implementation, the state writer and PutBitmap/Chunk.Range hand absolute offsets to the destination buffer and index per-block storage with relative ones", 6, snapshotFns)
-			ruleReplayOrder(r)
-			ruleCommitOrder(r, true, false)
-			ruleStorageArms(r)
-			foundation(r)
+			guard(r, func() { ruleIndexArms(r) })
+			guard(r, func() { ruleCommitUpdates(r) })
+			guard(r, func() { ruleRowDelete(r) })
+			guard(r, func() { ruleRegister(r) })
+			guard(r, func() { ruleBackfill(r) })
+			guard(r, func() { ruleRegistryLists(r) })
+			guard(r, func() { ruleUnits(r, "C03.units", unitsText, 2, anyOf(applyUnitFns("index"), fnsel("(*column.Collection).CreateIndex", "(*column.Collection).chunks"))) })
+			guard(r, func() { ruleUnits(r, "C07.abs", "every Snapshot implementation, the state writer and PutBitmap/Chunk.Range hand absolute offsets to the destination buffer and index per-block storage with relative ones", 6, snapshotFns) })
+			guard(r, func() { ruleReplayOrder(r) })
+			guard(r, func() { ruleCommitOrder(r, true, false) })
+			guard(r, func() { ruleStorageArms(r) })
+			guard(r, func() { foundation(r) })
+			guard(r, func() { ruleFootprint(r, "E.footprint", footSel("(*column.Collection).CreateIndex", "(*column.Collection).DropIndex", "(*column.Collection).Query"), 3) })
 		}})
 	register(&PropSpec{ID: "C04",
 		Explanation: "Filters, iteration and aggregates — structural part. (C04.ops) which bitmap operation each filter applies to (selection, column) and the missing-column behaviour; (C04.presence) typed filters intersect with presence before the predicate scan, WithValue tests presence, aggregates fold only under selection ∧ presence; (C04.cursor) cursor positioned on the row before its callback; (C04.units) per-block slices indexed by relative offsets, callbacks receive absolute ones; (L3) predicate and fold run under the block latch; (U.defs) block arithmetic and scratch bitmap size." + staticNote,
 		NotDecided:  []string{"the set algebra itself", "ascending order and exactly-once (properties of bitmap.Range)", "numeric results of bitmap.Sum/Min/Max", "loop bounds of rangeRead"},
 		Assumptions: []string{assumeA1, assumeA3},
 		Run: func(r *Report) {
-			ruleFilterOps(r)
-			rulePresence(r)
-			ruleCursor(r)
-			ruleBlockLoops(r)
-			rulePool(r)
-			ruleCountAndCache(r)
-			ruleAggregatesReadOnly(r)
-			ruleUnits(r, "C04.units", "filters, iteration and aggregates index per-block storage with block-relative offsets and hand absolute offsets to callbacks and the cursor", 12, filterFns)
-			ruleUnitDefs(r)
-			ruleL3f(r, only("(*column.Txn).With", "(*column.Txn).Union", "(*column.Txn).Range", "(column.rdNumber[T])."), 10)
-			foundation(r)
-			ruleFootprint(r, "E.footprint", footSel("(*column.Txn).With", "(*column.Txn).Union", "(*column.Txn).Count", "(*column.Txn).Range", "(*column.Txn).Ascend", "(*column.Txn).DeleteAt", "(*column.Txn).DeleteAll", "(column.rdNumber[T])."), 12)
+			guard(r, func() { ruleFilterOps(r) })
+			guard(r, func() { rulePresence(r) })
+			guard(r, func() { ruleCursor(r) })
+			guard(r, func() { ruleBlockLoops(r) })
+			guard(r, func() { rulePool(r) })
+			guard(r, func() { ruleCountAndCache(r) })
+			guard(r, func() { ruleAggregatesReadOnly(r) })
+			guard(r, func() { ruleUnits(r, "C04.units", "filters, iteration and aggregates index per-block storage with block-relative offsets and hand absolute offsets to callbacks and the cursor", 12, filterFns) })
+			guard(r, func() { ruleUnitDefs(r) })
+			guard(r, func() { ruleL3f(r, only("(*column.Txn).With", "(*column.Txn).Union", "(*column.Txn).Range", "(column.rdNumber[T])."), 10) })
+			guard(r, func() { foundation(r) })
+			guard(r, func() { ruleFootprint(r, "E.footprint", footSel("(*column.Txn).With", "(*column.Txn).Union", "(*column.Txn).Count", "(*column.Txn).Range", "(*column.Txn).Ascend", "(*column.Txn).DeleteAt", "(*column.Txn).DeleteAll", "(column.rdNumber[T])."), 12) })
 		}})
 	register(&PropSpec{ID: "C05",
 		Explanation: "Buffer/commit/log round-trip — structural skeleton only (most of this property is about byte values and is not decidable statically). (C05.flags) writers and reader agree on header flags, size tags and payload widths, decided per arm; (C05.varint) writer loop and the reader's five stages agree; (C05.header) block headers written on block change, reader restarts the offset chain from them; (C05.copy) clones and resets cover every field, clones share no slice; (C01.width) Put/read/Swap widths per kind, swap retags as Put; (C03.order) replay never appends to the buffer." + staticNote,
 		NotDecided:  []string{"equality of decoded and encoded sequences for arbitrary operation sequences", "negative deltas, interleaved blocks as values", "s2 / iostream framing", "C05.wire (grammar agreement of WriteTo/ReadFrom) was planned as tier 2 and not built"},
 		Assumptions: []string{assumeA3},
 		Run: func(r *Report) {
-			ruleCodecFlags(r)
-			ruleVarint(r)
-			ruleHeaders(r)
-			ruleCopies(r)
-			ruleWidths(r)
-			ruleReplayOrder(r)
-			ruleReaderState(r)
-			ruleUnits(r, "C05.units", unitsText, 3, fnsel("(*commit.", "(commit.", "commit."))
-			ruleSerialFields(r)
-			ruleDecodeFresh(r)
+			guard(r, func() { ruleCodecFlags(r) })
+			guard(r, func() { ruleVarint(r) })
+			guard(r, func() { ruleHeaders(r) })
+			guard(r, func() { ruleCopies(r) })
+			guard(r, func() { ruleWidths(r) })
+			guard(r, func() { ruleReplayOrder(r) })
+			guard(r, func() { ruleReaderState(r) })
+			guard(r, func() { ruleUnits(r, "C05.units", unitsText, 3, fnsel("(*commit.", "(commit.", "commit.")) })
+			guard(r, func() { ruleSerialFields(r) })
+			guard(r, func() { ruleDecodeFresh(r) })
+			guard(r, func() { ruleWireGrammar(r) })
 		}})
 	register(&PropSpec{ID: "C06",
 		Explanation: "Replica convergence — structural part. (L5.emit) every append to logger/recorder happens under the block's exclusive latch, so per block emission order = apply order for all schedules; (C06.emitorder) emission after updates and markers were applied (merges rewritten); (C06.emitfields) the emitted commit names this block, the drawn id and the transaction's buffers; (C06.clone, C05.copy) the channel logger sends a deep clone, the file logger serialises synchronously; (C06.replay) Replay marks the commit's block and queues every non-empty buffer through a transaction; (C03.order) no replay-time append reorders operations; (C01.arms) Merge arms swap in the final value." + staticNote,
 		NotDecided:  []string{"convergence itself (a history property)", "interleavings beyond 'per block, emission order = apply order'"},
 		Assumptions: []string{assumeA2, assumeA3},
 		Run: func(r *Report) {
-			ruleL5emit(r)
-			ruleCommitOrder(r, false, true)
-			ruleEmitFields(r)
-			ruleChannelClone(r)
-			ruleCopies(r)
-			ruleReplay(r)
-			ruleReplayOrder(r)
-			ruleStorageArms(r)
-			ruleCommitUpdates(r) // primary and replica maintain computed columns the same way
-			ruleUnits(r, "C06.units", unitsText, 2, fnsel("(*column.Collection).Replay", "(*column.Txn).commit", "(*column.Txn).rangeWrite", "(*commit.Reader).Swap"))
-			ruleSerialFields(r)
-			ruleDecodeFresh(r)
-			ruleCodecFlags(r)
-			ruleVarint(r)
-			ruleHeaders(r)
-			ruleIndexArms(r)
-			ruleKeyArms(r)
-			ruleMarkerArms(r)
-			rulePool(r)
-			ruleRowDelete(r)
-			foundation(r)
+			guard(r, func() { ruleL5emit(r) })
+			guard(r, func() { ruleCommitOrder(r, false, true) })
+			guard(r, func() { ruleEmitFields(r) })
+			guard(r, func() { ruleChannelClone(r) })
+			guard(r, func() { ruleCopies(r) })
+			guard(r, func() { ruleReplay(r) })
+			guard(r, func() { ruleReplayOrder(r) })
+			guard(r, func() { ruleStorageArms(r) })
+			guard(r, func() { ruleCommitUpdates(r) }) // primary and replica maintain computed columns the same way
+			guard(r, func() { ruleUnits(r, "C06.units", unitsText, 2, fnsel("(*column.Collection).Replay", "(*column.Txn).commit", "(*column.Txn).rangeWrite", "(*commit.Reader).Swap")) })
+			guard(r, func() { ruleSerialFields(r) })
+			guard(r, func() { ruleDecodeFresh(r) })
+			guard(r, func() { ruleCodecFlags(r) })
+			guard(r, func() { ruleVarint(r) })
+			guard(r, func() { ruleHeaders(r) })
+			guard(r, func() { ruleIndexArms(r) })
+			guard(r, func() { ruleKeyArms(r) })
+			guard(r, func() { ruleMarkerArms(r) })
+			guard(r, func() { rulePool(r) })
+			guard(r, func() { ruleRowDelete(r) })
+			guard(r, func() { foundation(r) })
+			guard(r, func() { ruleFootprint(r, "E.footprint", footSel("(*column.Collection).Replay", "(*column.Collection).Query"), 2) })
+			guard(r, func() { ruleWireGrammar(r) })
 		}})
 	register(&PropSpec{ID: "C07",
 		Explanation: "Restore reproduces the collection — structural part. (C07.abs) offset-kind analysis of every Snapshot implementation, the state writer and PutBitmap: absolute offsets into the buffer, relative into per-block storage; (C07.count) the announced buffer count and the buffers written use one predicate; (C13.whole) readState applies each block through its own transaction and only when the block was read completely; (C11.markers) insert markers rebuild the fill list and the count; (U.defs) block arithmetic." + staticNote,
 		NotDecided:  []string{"equality of contents", "behaviour of s2", "C07.wire (state stream grammar) not built"},
 		Assumptions: []string{assumeA3},
 		Run: func(r *Report) {
-			ruleUnits(r, "C07.abs", "every Snapshot implementation, the state writer and PutBitmap/Chunk.Range hand absolute offsets to the destination buffer and index per-block storage with relative ones", 6, snapshotFns)
-			ruleSnapshotCount(r)
-			ruleWholeCommits(r)
-			ruleMarkerArms(r)
-			ruleUnitDefs(r)
-			ruleStateVersion(r)
-			ruleSerialFields(r)
-			ruleDecodeFresh(r)
-			ruleCodecFlags(r)
-			ruleVarint(r)
-			ruleHeaders(r)
-			ruleStorageArms(r)
-			ruleIndexArms(r)
-			ruleKeyArms(r)
-			ruleCommitUpdates(r)
-			ruleGrow(r)
-			ruleReplay(r)
-			foundation(r)
-			ruleStateFlush(r)
+			guard(r, func() { ruleUnits(r, "C07.abs", "every Snapshot implementation, the state writer and PutBitmap/Chunk.Range hand absolute offsets to the destination buffer and index per-block storage with relative ones", 6, snapshotFns) })
+			guard(r, func() { ruleSnapshotCount(r) })
+			guard(r, func() { ruleWholeCommits(r) })
+			guard(r, func() { ruleMarkerArms(r) })
+			guard(r, func() { ruleUnitDefs(r) })
+			guard(r, func() { ruleStateVersion(r) })
+			guard(r, func() { ruleSerialFields(r) })
+			guard(r, func() { ruleDecodeFresh(r) })
+			guard(r, func() { ruleCodecFlags(r) })
+			guard(r, func() { ruleVarint(r) })
+			guard(r, func() { ruleHeaders(r) })
+			guard(r, func() { ruleStorageArms(r) })
+			guard(r, func() { ruleIndexArms(r) })
+			guard(r, func() { ruleKeyArms(r) })
+			guard(r, func() { ruleCommitUpdates(r) })
+			guard(r, func() { ruleGrow(r) })
+			guard(r, func() { ruleReplay(r) })
+			guard(r, func() { foundation(r) })
+			guard(r, func() { ruleStateFlush(r) })
+			guard(r, func() { ruleFootprint(r, "E.footprint", footSel("(*column.Collection).Snapshot", "(*column.Collection).Restore"), 2) })
+			guard(r, func() { ruleWireGrammar(r) })
 		}})
 	register(&PropSpec{ID: "C08",
 		Explanation: "Snapshot under concurrent commits is a consistent cut — structural part. (L5.id) the commit id is drawn, stored and handed on while the block's exclusive latch is held (so per block id order = apply order for all schedules); (L5.emit) the recorder append and the recording test happen under that latch; (C08.read) the snapshot reads id, fill slice and columns of a block under the block latch and the collection mutex; (C08.order) recorder opened before the state is written, log copied after; (C08.replay) restore replays exactly the commits whose id is not below the block's stored id; (C02.isolation) the fill slice read contains only committed rows; (L4) commit-id table discipline." + staticNote,
 		NotDecided:  []string{"the cut property itself over schedules"},
 		Assumptions: []string{assumeA2, assumeA3},
 		Run: func(r *Report) {
-			ruleL5id(r)
-			ruleL5emit(r)
-			ruleReadChunk(r)
-			ruleSnapshotOrder(r)
-			ruleRestoreGuard(r)
-			ruleIsolation(r)
-			ruleL4(r)
-			ruleUnits(r, "C08.units", unitsText, 2, anyOf(snapshotFns, fnsel("(*column.Txn).rangeWrite", "(*column.Collection).readChunk")))
-			ruleWholeCommits(r)
-			ruleSnapshotCount(r)
-			ruleReplay(r)
-			ruleCommitOrder(r, false, true)
-			ruleMarkerArms(r)
-			ruleL1(r, backfillExempt)
-			foundation(r)
+			guard(r, func() { ruleL5id(r) })
+			guard(r, func() { ruleL5emit(r) })
+			guard(r, func() { ruleReadChunk(r) })
+			guard(r, func() { ruleSnapshotOrder(r) })
+			guard(r, func() { ruleRestoreGuard(r) })
+			guard(r, func() { ruleIsolation(r) })
+			guard(r, func() { ruleL4(r) })
+			guard(r, func() { ruleUnits(r, "C08.units", unitsText, 2, anyOf(snapshotFns, fnsel("(*column.Txn).rangeWrite", "(*column.Collection).readChunk"))) })
+			guard(r, func() { ruleWholeCommits(r) })
+			guard(r, func() { ruleSnapshotCount(r) })
+			guard(r, func() { ruleReplay(r) })
+			guard(r, func() { ruleCommitOrder(r, false, true) })
+			guard(r, func() { ruleMarkerArms(r) })
+			guard(r, func() { ruleL1(r, backfillExempt) })
+			guard(r, func() { foundation(r) })
+			guard(r, func() { ruleFootprint(r, "E.footprint", footSel("(*column.Collection).Snapshot", "(*column.Collection).Restore", "(*column.Collection).Query"), 3) })
 		}})
 	register(&PropSpec{ID: "C09",
 		Explanation: "Concurrent merges are never lost — structural part. (C01.arms …/Merge/rmw) in every Merge arm the old value is loaded from the element that is stored, merged with the delta read from the buffer, and swapped back into the buffer, inside one Apply body; (L1) every Apply runs under the block's exclusive latch on every call path, so the read-modify-write is atomic per block for all schedules; (C09.queue) every Merge accessor queues the delta and reads nothing." + staticNote,
 		NotDecided:  []string{"arithmetic of the merge", "user merge functions"},
 		Assumptions: []string{assumeA3},
 		Run: func(r *Report) {
-			ruleStorageArms(r)
-			ruleL1(r, backfillExempt)
-			ruleMergeQueued(r)
-			ruleMergeReentrant(r)
-			ruleUnits(r, "C09.units", unitsText, 10, applyUnitFns("numeric", "string"))
-			foundation(r)
+			guard(r, func() { ruleStorageArms(r) })
+			guard(r, func() { ruleL1(r, backfillExempt) })
+			guard(r, func() { ruleMergeQueued(r) })
+			guard(r, func() { ruleMergeReentrant(r) })
+			guard(r, func() { ruleUnits(r, "C09.units", unitsText, 10, applyUnitFns("numeric", "string")) })
+			guard(r, func() { foundation(r) })
 			ruleFootprint(r, "E.footprint", func(n string) bool {
 				return strings.HasSuffix(n, ").Merge") || strings.HasPrefix(n, "(column.Row).Merge") || n == "(column.rwTTL).Extend"
 			}, 10)
@@ -303,45 +312,48 @@ func init() {
 		NotDecided:  []string{"client misuse (accessor used outside a callback, nested transactions) — assumption A1", "correctness of smutex and sync"},
 		Assumptions: []string{assumeA1, assumeA3},
 		Run: func(r *Report) {
-			ruleL0(r)
-			ruleL1(r, backfillExempt)
-			ruleL2(r)
-			ruleShard(r)
-			ruleSingleSection(r)
-			ruleBlockLoops(r)
-			foundation(r)
+			guard(r, func() { ruleL0(r) })
+			guard(r, func() { ruleL1(r, backfillExempt) })
+			guard(r, func() { ruleL2(r) })
+			guard(r, func() { ruleShard(r) })
+			guard(r, func() { ruleSingleSection(r) })
+			guard(r, func() { ruleBlockLoops(r) })
+			guard(r, func() { foundation(r) })
+			guard(r, func() { ruleFootprint(r, "E.footprint", footSel("(*column.Collection).Query", "(*column.Collection).QueryAt", "(*column.Txn).QueryAt", "(*column.Txn).Range"), 3) })
 		}})
 	register(&PropSpec{ID: "C11",
 		Explanation: "Insert offsets never collide, reused offsets carry no stale data — structural part. (C11.reserve, L4) next() picks and marks the offset in one exclusive section, every fill-list access is under the collection mutex, the counter is atomic-only; (C11.markers) commitMarkers sets/clears fill bits per marker and recounts; (C03.rowdelete) row deletes reach every registry entry; (C01.arms, C03.arms) every kind's Delete arm clears presence / the index bit; (C11.order) updates are applied before markers; (C02.release) failing inserts and rollbacks release their offsets." + staticNote,
 		NotDecided:  []string{"that findFreeIndex returns a clear bit (bit arithmetic over the fill words)", "count == popcount(fill) as a value"},
 		Assumptions: []string{assumeA3},
 		Run: func(r *Report) {
-			ruleReserve(r)
-			ruleL4(r)
-			ruleMarkerArms(r)
-			ruleRowDelete(r)
-			ruleStorageArms(r)
-			ruleIndexArms(r)
-			ruleCommitOrder(r, true, false)
-			ruleRelease(r)
-			ruleUnits(r, "C11.units", unitsText, 5, anyOf(reserveFns, applyUnitFns("numeric", "string", "enum", "key", "bool", "index")))
-			foundation(r)
+			guard(r, func() { ruleReserve(r) })
+			guard(r, func() { ruleL4(r) })
+			guard(r, func() { ruleMarkerArms(r) })
+			guard(r, func() { ruleRowDelete(r) })
+			guard(r, func() { ruleStorageArms(r) })
+			guard(r, func() { ruleIndexArms(r) })
+			guard(r, func() { ruleCommitOrder(r, true, false) })
+			guard(r, func() { ruleFillSiblings(r) })
+			guard(r, func() { ruleRelease(r) })
+			guard(r, func() { ruleUnits(r, "C11.units", unitsText, 5, anyOf(reserveFns, applyUnitFns("numeric", "string", "enum", "key", "bool", "index"))) })
+			guard(r, func() { foundation(r) })
+			guard(r, func() { ruleFootprint(r, "E.footprint", footSel("(*column.Txn).Insert", "(*column.Collection).Insert", "(*column.Txn).InsertKey", "(*column.Txn).UpsertKey", "(*column.Collection).Query"), 4) })
 		}})
 	register(&PropSpec{ID: "C12",
 		Explanation: "Primary keys behave like a map — structural part. (C12.arms) key column Apply maintains the lookup table: insert on Put with the stored value as key, removal of the row's previous key on overwrite, removal of the stored key on Delete; (C12.paths) guard structure of InsertKey/UpsertKey/QueryKey/DeleteKey/SetKey; (L6) table accessed under the key lock; (C12.atomic) existence test and insertion form one atomic step; (C11.order) a put+delete of one row leaves no table entry." + staticNote,
 		NotDecided:  []string{"map semantics over histories"},
 		Assumptions: []string{assumeA1, assumeA3},
 		Run: func(r *Report) {
-			ruleKeyArms(r)
-			ruleKeyPaths(r)
-			ruleKeyWiring(r)
-			ruleL6(r)
-			ruleKeyAtomic(r)
-			ruleCommitOrder(r, true, false)
-			ruleUnits(r, "C12.units", unitsText, 4, anyOf(applyUnitFns("key"), fnsel("(*column.Txn).InsertKey", "(*column.Txn).UpsertKey", "(*column.Txn).QueryKey", "(*column.Txn).DeleteKey", "(column.Row).Key", "(column.Row).SetKey")))
-			ruleRowDelete(r)
-			foundation(r)
-			ruleFootprint(r, "E.footprint", footSel("(*column.Txn).InsertKey", "(*column.Txn).UpsertKey", "(*column.Txn).QueryKey", "(*column.Txn).DeleteKey", "(column.Row).SetKey", "(column.Row).Key", "(column.rwKey)."), 6)
+			guard(r, func() { ruleKeyArms(r) })
+			guard(r, func() { ruleKeyPaths(r) })
+			guard(r, func() { ruleKeyWiring(r) })
+			guard(r, func() { ruleL6(r) })
+			guard(r, func() { ruleKeyAtomic(r) })
+			guard(r, func() { ruleCommitOrder(r, true, false) })
+			guard(r, func() { ruleUnits(r, "C12.units", unitsText, 4, anyOf(applyUnitFns("key"), fnsel("(*column.Txn).InsertKey", "(*column.Txn).UpsertKey", "(*column.Txn).QueryKey", "(*column.Txn).DeleteKey", "(column.Row).Key", "(column.Row).SetKey"))) })
+			guard(r, func() { ruleRowDelete(r) })
+			guard(r, func() { foundation(r) })
+			guard(r, func() { ruleFootprint(r, "E.footprint", footSel("(*column.Txn).InsertKey", "(*column.Txn).UpsertKey", "(*column.Txn).QueryKey", "(*column.Txn).DeleteKey", "(column.Row).SetKey", "(column.Row).Key", "(column.rwKey)."), 6) })
 		}})
 	register(&PropSpec{ID: "C13",
 		Explanation: "Truncated files never restore silently wrong state — structural skeleton only (the property is mostly about bytes and not applicable to static analysis). (C13.err) error-flow: no error of a read is discarded in Commit.ReadFrom, Buffer.ReadFrom, readChunksFrom, Log.Range, readState, Restore (one exception with reason); (C13.whole) the log callback runs only for completely decoded commits, a block commits only after all its buffers were read, the log is touched only after the state was read." + staticNote,
@@ -350,110 +362,118 @@ func init() {
 		Run: func(r *Report) {
 			ruleErrorFlow(r, "C13.err", "no error returned by a read on the restore / log-range path is discarded", 10,
 				[]string{"(*commit.Commit).ReadFrom", "(*commit.Buffer).ReadFrom", "commit.readChunksFrom", "(*commit.Log).Range", "(*column.Collection).readState", "(*column.Collection).Restore"}, c13Exceptions)
-			ruleWholeCommits(r)
-			ruleRestoreGuard(r)
-			ruleExactReads(r)
-			ruleSnapshotCount(r)
-			ruleReplay(r)
-			ruleSerialFields(r)
-			ruleDecodeFresh(r)
+			guard(r, func() { ruleRestorePropagates(r) })
+			guard(r, func() { ruleWholeCommits(r) })
+			guard(r, func() { ruleRestoreGuard(r) })
+			guard(r, func() { ruleExactReads(r) })
+			guard(r, func() { ruleSnapshotCount(r) })
+			guard(r, func() { ruleReplay(r) })
+			guard(r, func() { ruleSerialFields(r) })
+			guard(r, func() { ruleDecodeFresh(r) })
+			guard(r, func() { ruleFootprint(r, "E.footprint", footSel("(*column.Collection).Restore"), 1) })
 		}})
 	register(&PropSpec{ID: "C14",
 		Explanation: "A failed snapshot reports the error and leaves the collection usable — structural part. (C14.pair) must-pass-through on Snapshot's flow graph: after the recorder was opened every exit uninstalls it, closes the temporary log and removes its file; losing the installation race cleans up; (C14.err) error-flow: no error on the state-writing path is discarded." + staticNote,
 		NotDecided:  []string{"that s2 surfaces every destination error at Flush (dependency)", "descriptor counts as values"},
 		Assumptions: []string{assumeA3},
 		Run: func(r *Report) {
-			ruleSnapshotCleanup(r)
+			guard(r, func() { ruleSnapshotCleanup(r) })
 			ruleErrorFlow(r, "C14.err", "no error on the snapshot write path (state writer and its closures, buffer serialisation, log copy, recorder open) is discarded", 8,
 				[]string{"(*column.Collection).Snapshot", "(*column.Collection).writeState", "(*commit.Log).Copy", "(*commit.Buffer).WriteTo", "(*column.Collection).recorderOpen"}, c14Exceptions)
-			ruleStateFlush(r)
+			guard(r, func() { ruleFileHandles(r) })
+			guard(r, func() { ruleStateFlush(r) })
+			guard(r, func() { ruleFootprint(r, "E.footprint", footSel("(*column.Collection).Snapshot"), 1) })
 		}})
 	register(&PropSpec{ID: "C15",
 		Explanation: "Change stream exactly-once, per-block ordered, identifiable — structural part. (C15.once) the commit callback's flow graph is evaluated under all 16 valuations of its guards: one logger append iff rows changed or a column was updated, one callback per dirty block; (C15.dirty) dirty blocks come from the buffers' headers; (C02.effects emit/*) appends only below commit; (L5.id) ids drawn under the exclusive latch from one atomic counter ⇒ per block id order = apply order = emission order (with L5.emit); (C06.emitfields) emitted fields; (C05.copy) Commit.Clone keeps the id." + staticNote,
 		NotDecided:  []string{"distinctness of ids as a value property beyond 'single atomic counter'", "that the counter never yields 0"},
 		Assumptions: []string{assumeA3},
 		Run: func(r *Report) {
-			ruleEmitOnce(r)
-			ruleDirty(r)
-			ruleEffectsBelowCommit(r)
-			ruleL5id(r)
-			ruleL5emit(r)
-			ruleEmitFields(r)
-			ruleCopies(r)
-			ruleUnits(r, "C15.units", unitsText, 1, fnsel("(*column.Txn).commit", "(*column.Txn).rangeWrite"))
-			ruleQueryPaths(r)
-			rulePool(r)
-			ruleCommitOrder(r, false, true)
-			ruleCommitUpdates(r)
+			guard(r, func() { ruleEmitOnce(r) })
+			guard(r, func() { ruleDirty(r) })
+			guard(r, func() { ruleEffectsBelowCommit(r) })
+			guard(r, func() { ruleL5id(r) })
+			guard(r, func() { ruleL5emit(r) })
+			guard(r, func() { ruleEmitFields(r) })
+			guard(r, func() { ruleCopies(r) })
+			guard(r, func() { ruleUnits(r, "C15.units", unitsText, 1, fnsel("(*column.Txn).commit", "(*column.Txn).rangeWrite")) })
+			guard(r, func() { ruleQueryPaths(r) })
+			guard(r, func() { rulePool(r) })
+			guard(r, func() { ruleCommitOrder(r, false, true) })
+			guard(r, func() { ruleCommitUpdates(r) })
+			guard(r, func() { ruleFootprint(r, "E.footprint", footSel("(*column.Collection).Query", "(*column.Collection).Replay"), 2) })
 		}})
 	register(&PropSpec{ID: "C16",
 		Explanation: "Sorted-index iteration complete and ordered — structural part. (C16.cmp) the ordering handed to the tree reads every field of the item; (C16.arms) arm effects of columnSortIndex.Apply; (C16.scan) Ascend scans ascending and filters by the selection; (C04.cursor) cursor positioned; (C01.alias) keys are copies; (C11.order) a put+delete of one row leaves no entry." + staticNote,
 		NotDecided:  []string{"btree correctness", "order of equal keys"},
 		Assumptions: []string{assumeA3},
 		Run: func(r *Report) {
-			ruleSortCmp(r)
-			ruleSortArms(r)
-			ruleSortScan(r)
-			ruleCursor(r)
-			ruleAlias(r, "sortindex")
-			ruleCommitOrder(r, true, false)
-			ruleUnits(r, "C16.units", unitsText, 2, anyOf(applyUnitFns("sortindex"), fnsel("(*column.Txn).Ascend")))
-			ruleCommitUpdates(r)
-			ruleRowDelete(r)
-			ruleRegister(r)
-			ruleBackfill(r)
-			ruleRegistryLists(r)
-			foundation(r)
+			guard(r, func() { ruleSortCmp(r) })
+			guard(r, func() { ruleSortArms(r) })
+			guard(r, func() { ruleSortScan(r) })
+			guard(r, func() { ruleCursor(r) })
+			guard(r, func() { ruleAlias(r, "sortindex") })
+			guard(r, func() { ruleCommitOrder(r, true, false) })
+			guard(r, func() { ruleUnits(r, "C16.units", unitsText, 2, anyOf(applyUnitFns("sortindex"), fnsel("(*column.Txn).Ascend"))) })
+			guard(r, func() { ruleCommitUpdates(r) })
+			guard(r, func() { ruleRowDelete(r) })
+			guard(r, func() { ruleRegister(r) })
+			guard(r, func() { ruleBackfill(r) })
+			guard(r, func() { ruleRegistryLists(r) })
+			guard(r, func() { foundation(r) })
+			guard(r, func() { ruleFootprint(r, "E.footprint", footSel("(*column.Txn).Ascend", "(*column.Collection).CreateSortIndex", "(*column.Collection).Query"), 3) })
 		}})
 	register(&PropSpec{ID: "C17",
 		Explanation: "Rows expire only after their deadline — structural part only (all timing is not applicable). (C17.guard) edge-dominance in the cleanup: DeleteAt(row) only under ok ∧ now.After(deadline); ExpiresAt/TTL report a deadline only when stored and non-zero; selection With(expire); (C17.write) writers store now+ttl or 0, Extend is a queued merge; (C17.wiring) expire column created at construction, one cleanup goroutine with the configured interval that stops on close; (C09.queue) merge accessors queue deltas." + staticNote,
 		NotDecided:  []string{"all timing ('within a few intervals')", "clock behaviour"},
 		Assumptions: []string{assumeA1},
 		Run: func(r *Report) {
-			ruleExpire(r)
-			ruleTTLNames(r)
-			ruleMergeQueued(r)
-			ruleUnits(r, "C17.units", unitsText, 1, fnsel("(*column.Collection).vacuum", "(*column.Txn).DeleteAt", "(column.rwTTL).", "(column.Row).SetTTL", "(column.Row).TTL"))
-			ruleRowDelete(r) // a deleted row's deadline must not survive for the next occupant of the offset
-			foundation(r)
-			ruleFootprint(r, "E.footprint", footSel("(column.rwTTL).", "(column.Row).TTL", "(column.Row).SetTTL"), 4)
+			guard(r, func() { ruleExpire(r) })
+			guard(r, func() { ruleTTLNames(r) })
+			guard(r, func() { ruleMergeQueued(r) })
+			guard(r, func() { ruleUnits(r, "C17.units", unitsText, 1, fnsel("(*column.Collection).vacuum", "(*column.Txn).DeleteAt", "(column.rwTTL).", "(column.Row).SetTTL", "(column.Row).TTL")) })
+			guard(r, func() { ruleRowDelete(r) }) // a deleted row's deadline must not survive for the next occupant of the offset
+			guard(r, func() { rulePeriodicCleanup(r) })
+			guard(r, func() { foundation(r) })
+			guard(r, func() { ruleFootprint(r, "E.footprint", footSel("(column.rwTTL).", "(column.Row).TTL", "(column.Row).SetTTL"), 4) })
 		}})
 	register(&PropSpec{ID: "C18",
 		Explanation: "Race/deadlock discipline. The lockset walk (see C10) decides for every call path: (L0) balance; (L1) column Apply under the exclusive latch, index back-fill included; (L2) positioned callbacks under the latch; (L3) every storage access reachable from an API root under the latch; (L4) fill list under the collection mutex, counter atomic-only, commit-id table under mutex/latch; (L6) key table and sorted index under their locks; (L7) cross-block column state is written only under a lock its readers take; (L8) the acquisition-order graph over all paths is acyclic with no re-acquisition and no latch-under-latch; (L9) the registry published through atomic.Value is never edited in place; (L.table) every field of every Column implementation is classified. Necessary conditions for race- and deadlock-freedom over all schedules; not sufficient (abstract locks, no alias analysis across functions, dependencies trusted)." + staticNote,
 		NotDecided:  []string{"termination in general", "races inside dependencies", "instance identity of abstract locks across functions"},
 		Assumptions: []string{assumeA1, assumeA2, assumeA3},
 		Run: func(r *Report) {
-			ruleL0(r)
-			ruleL1(r, nil)
-			ruleL2(r)
-			ruleShard(r)
-			ruleStorageTable(r)
-			ruleL3(r, nil)
-			ruleL4(r)
-			ruleL6(r)
-			ruleL7(r)
-			ruleL8(r)
-			ruleL9(r)
-			ruleRegistryLists(r)
-			ruleReadChunk(r)
-			ruleQueryPaths(r) // the pooled Txn is handed to one caller at a time
-			rulePool(r)
+			guard(r, func() { ruleL0(r) })
+			guard(r, func() { ruleL1(r, nil) })
+			guard(r, func() { ruleL2(r) })
+			guard(r, func() { ruleShard(r) })
+			guard(r, func() { ruleStorageTable(r) })
+			guard(r, func() { ruleL3(r, nil) })
+			guard(r, func() { ruleL4(r) })
+			guard(r, func() { ruleL6(r) })
+			guard(r, func() { ruleL7(r) })
+			guard(r, func() { ruleL8(r) })
+			guard(r, func() { ruleL9(r) })
+			guard(r, func() { ruleRegistryLists(r) })
+			guard(r, func() { ruleReadChunk(r) })
+			guard(r, func() { ruleQueryPaths(r) }) // the pooled Txn is handed to one caller at a time
+			guard(r, func() { rulePool(r) })
 		}})
 	register(&PropSpec{ID: "C19",
 		Explanation: "Triggers fire once per committed change with the final value — structural part. (C19.arms) the trigger's Apply loop calls back on every path for Put and Delete, never for Insert/Merge/Skip, one call per operation, with the positioned reader; (C03.twopass) computed pass after the main pass over the rewritten buffer; (C01.arms) every Merge arm swaps ⇒ the trigger sees a Put of the final value; (C03.rowdelete) row deletes reach the trigger's own registry entry once (markers go to cols[0] only); (C02.effects) no Apply outside commit ⇒ nothing on rollback; (C03.order) replay never reorders; (C03.register) CreateTrigger/DropTrigger." + staticNote,
 		NotDecided:  []string{"the values passed", "order across blocks"},
 		Assumptions: []string{assumeA3},
 		Run: func(r *Report) {
-			ruleTriggerArms(r)
-			ruleCommitUpdates(r)
-			ruleStorageArms(r)
-			ruleRowDelete(r)
-			ruleEffectsBelowCommit(r)
-			ruleReplayOrder(r)
-			ruleRegister(r)
-			ruleRegistryLists(r)
-			rulePool(r)
-			ruleQueryPaths(r)
+			guard(r, func() { ruleTriggerArms(r) })
+			guard(r, func() { ruleCommitUpdates(r) })
+			guard(r, func() { ruleStorageArms(r) })
+			guard(r, func() { ruleRowDelete(r) })
+			guard(r, func() { ruleEffectsBelowCommit(r) })
+			guard(r, func() { ruleReplayOrder(r) })
+			guard(r, func() { ruleRegister(r) })
+			guard(r, func() { ruleRegistryLists(r) })
+			guard(r, func() { rulePool(r) })
+			guard(r, func() { ruleQueryPaths(r) })
+			guard(r, func() { ruleFootprint(r, "E.footprint", footSel("(*column.Collection).CreateTrigger", "(*column.Collection).DropTrigger", "(*column.Collection).Query"), 3) })
 		}})
 }
 
